@@ -93,6 +93,30 @@ func runProbe(name string) {
 		fmt.Println("user 2 blocks the sender, signing in upper case:", c.Deliver(&nttypes.MsgBlockSenders{Creator: strings.ToUpper(U[2].String()), ToBlock: []string{spammer}}).OK)
 		r3 := c.Deliver(&nttypes.MsgCreateNotification{Creator: spammer, To: U[2].String(), Contents: "{}"})
 		fmt.Println("sender blocked that way still delivers to user 2:", r3.OK)
+	case "gauge-end-beyond-unixmicro":
+		// C05/C12: a pay-once file whose gauge ends beyond the range of Time.UnixMicro (year ~294 000)
+		c := NewChain(3, []string{"ujkl"}, nil)
+		U := c.Users
+		c.Begin(6 * time.Second)
+		params := c.A.StorageKeeper.GetParams(c.Ctx())
+		df := mkDataFile([]byte("far future"), params.ChunkSize)
+		years := int64(300_000)
+		b0 := c.A.BankKeeper.GetBalance(c.Ctx(), U[0], "ujkl").Amount
+		r1 := c.Deliver(&sttypes.MsgPostFile{Creator: U[0].String(), Merkle: df.root, FileSize: 10, MaxProofs: 1, Expires: c.H + years*365*14400, Note: "{}"})
+		fmt.Println("post pay-once file expiring in", years, "years:", r1.OK, r1.Err, " cost", b0.Sub(c.A.BankKeeper.GetBalance(c.Ctx(), U[0], "ujkl").Amount))
+		for _, g := range c.A.StorageKeeper.GetAllPaymentGauges(c.Ctx()) {
+			fmt.Println("gauge start", g.Start, "end", g.End, "end.UnixMicro", g.End.UnixMicro(), "coins", g.Coins)
+		}
+		start := c.H
+		it, hl := df.proof(0)
+		fmt.Println("prover proves:", c.Deliver(&sttypes.MsgPostProof{Creator: U[1].String(), Item: it, HashList: hl, Merkle: df.root, Owner: U[0].String(), Start: start, ToProve: 0}).OK)
+		for c.H < 3*params.CheckWindow {
+			if p := c.NextBlock(24 * time.Hour); p != nil {
+				fmt.Println("BeginBlock PANIC at height", c.H, ":", p)
+				return
+			}
+		}
+		fmt.Println("three reward blocks processed without panic; prover balance", c.A.BankKeeper.GetBalance(c.Ctx(), U[1], "ujkl"))
 	default:
 		fmt.Println("unknown probe", name)
 	}
